@@ -16,7 +16,8 @@ RULE = (
     "facts with K columns. Oracle (metamorphic, as the property states): result.shape == extra extents in "
     "dimension-then-axis order + category extents (+ fact axes); for EVERY extra-axis position (j1..jm) the block "
     "result[j1..jm] equals the same aggregate on the cube of the one-axis dimensions dense[:, j..] (indexes rebuilt "
-    "by the independent constructor, not by sliced()) with the same interacting shape. Non-trivial = at least two "
+    "by the independent constructor, not by sliced()) with the same interacting shape; half of the whole cubes are "
+    "evaluated with the worker pool on (real threads, or DetPool with a write-dense schedule), the reference cubes serially. Non-trivial = at least two "
     "extra axes with different extents and at least two blocks that differ. Evaluations = cases; blocks compared are "
     "reported separately. Distinct by case content."
 )
@@ -63,10 +64,13 @@ def cases(draw, tier):
         r == "plain" and agg == "valid_count" and not spec["ignore"])]
     spec["rma"] = draw(st.sampled_from(rmas))
     spec["shape_mode"] = draw(st.sampled_from(["exact", "padded", "inferred"]))
+    # the whole cube may be evaluated with the worker pool on (the blocks are then filled by concurrent tasks);
+    # the one-axis reference cubes are always serial
+    spec["pool"] = draw(Q.pool_specs())
     return spec
 
 
-def run(case, kind, dense, commons, shape):
+def run(case, kind, dense, commons, shape, pool=None):
     """Evaluate the aggregate on `dense` (list of arrays) with explicit interacting `shape`."""
     import warnings
 
@@ -87,7 +91,11 @@ def run(case, kind, dense, commons, shape):
                 and _n.array_equal(dense[al[0]], dense[al[1]]):
             dims_[al[1]] = dims_[al[0]]  # one object serving as two dimensions
         cube = (ccube if kind == "ccube" else xcube)(dims_, shape)
-        res = Q.call_agg(cube, case["agg"], farg, warg, case["ignore"], case["rma"], prob=case["prob"])
+        if pool and getattr(cube, "scaffold_size", 0) > 2:
+            with Q.pool_on(cube, pool):
+                res = Q.call_agg(cube, case["agg"], farg, warg, case["ignore"], case["rma"], prob=case["prob"])
+        else:
+            res = Q.call_agg(cube, case["agg"], farg, warg, case["ignore"], case["rma"], prob=case["prob"])
     return Q.normalise(res, case["rma"], "%s.%s" % (kind, case["agg"]))
 
 
@@ -111,7 +119,7 @@ def check(case, rec):
             used = tuple(int(a.max()) + 1 for a in dense)
         else:
             used = full
-        wv, wm = run(case, kind, dense, commons, shape_arg)
+        wv, wm = run(case, kind, dense, commons, shape_arg, pool=case.get("pool"))
     want_shape = tuple(scaffold) + tuple(used) + fact_axes
     if wv.shape != want_shape:
         raise Violation("%s: result shape %s, expected extra extents %s + category extents %s + fact axes %s"
@@ -140,6 +148,8 @@ def check(case, rec):
         blocks.add((gv.tobytes(), None if gm is None else gm.tobytes()))
     rec.count("blocks_compared", nblocks)
     rec.note("kind=" + kind, "agg=" + case["agg"], "extra_axes=%d" % len(scaffold))
+    pl = case.get("pool")
+    rec.note("whole cube serial" if not pl else "whole cube pooled (%s)" % ("DetPool" if pl.get("schedule") else "real threads"))
     if len(set(scaffold)) >= 2 and len(blocks) >= 2:
         rec.nontrivial()
 
